@@ -85,6 +85,7 @@ func (p *propC11) Prepare(seed uint64, tier string) int {
 		singles = append(singles, poolEntry{Name: fmt.Sprintf("model%d", i), Bytes: b, Med: Medium{Records: rs}, FT: ft})
 	}
 	singles = append(singles, crcEngineeredStreams()...)
+	singles = append(singles, zeroWidthStream())
 	if len(singles) == 0 {
 		fatalInfra("C11: empty pool")
 	}
@@ -582,4 +583,31 @@ func crcEngineeredStreams() []poolEntry {
 		}
 	}
 	return out
+}
+
+// zeroWidthStream: records that end in something of width 0 - an unlisted string
+// field of size 0, a developer field of size 0, a developer-data flag with no
+// developer field, a definition without any field (its records are a header
+// byte and nothing else). A cut right behind such a record leaves it complete.
+func zeroWidthStream() poolEntry {
+	rs := &RecStream{Header: HeaderSpec{Size: 12, Proto: 0x20, Profile: 2115}, Ops: []Op{
+		{Def: &DefOp{Local: 0, Arch: "le", Global: 0, Fields: [][3]int{{0, 1, 0}}}},
+		{Data: &DataOp{Local: 0, Bytes: "04"}},
+		{Def: &DefOp{Local: 1, Arch: "le", Global: 20, Fields: [][3]int{{3, 1, 2}, {250, 0, 7}}}},
+		{Data: &DataOp{Local: 1, Bytes: "50"}},
+		{Data: &DataOp{Local: 1, Bytes: "51"}},
+		{Def: &DefOp{Local: 2, Arch: "be", Global: 20, Fields: [][3]int{{4, 1, 2}}, Dev: [][3]int{{1, 0, 0}}}},
+		{Data: &DataOp{Local: 2, Bytes: "3c"}},
+		{Data: &DataOp{Local: 2, Bytes: "3d"}},
+		{Def: &DefOp{Local: 3, Arch: "le", Global: 21, Fields: nil}},
+		{Data: &DataOp{Local: 3, Bytes: ""}},
+		{Data: &DataOp{Local: 3, Bytes: ""}},
+		{Def: &DefOp{Local: 4, Arch: "le", Global: 20, Fields: [][3]int{{250, 0, 7}, {3, 1, 2}, {251, 0, 7}}}},
+		{Data: &DataOp{Local: 4, Bytes: "52"}},
+		{Data: &DataOp{Local: 1, Bytes: "53"}},
+		// an ordinary record last, so that the data section does not end in a zero-width read
+		{Def: &DefOp{Local: 5, Arch: "le", Global: 20, Fields: [][3]int{{3, 1, 2}}}},
+		{Data: &DataOp{Local: 5, Bytes: "54"}},
+	}}
+	return poolEntry{Name: "zero-width-tails", Bytes: rs.Build(), Med: Medium{Records: rs}, FT: 4}
 }
